@@ -193,6 +193,26 @@ class Weird:
     def __hash__(self):
         return 7
 
+class Base:
+    def area(self):
+        return 1
+
+class Shape(Base):
+    def __init__(self, s):
+        super().__init__()
+        self.s = s
+    def area(self):
+        extra = self.s * 2
+        return super().area() + extra            # zero-argument super(): needs the frame's __class__ cell
+
+def counter():
+    count = 0
+    def bump(k):
+        nonlocal count
+        count += k                               # a cell shared with the enclosing frame
+        return count
+    return [bump(i) for i in range(4)], count
+
 rate = 2
 bonus_total = 0
 
@@ -232,6 +252,9 @@ def main():
     out.append(fib(6))
     out.append(sum(gen(5)))
     out.append((priced([1, 2, 3]), rate))
+    out.append([Shape(i).area() for i in range(3)])
+    out.append(counter())
+    out.append([Shape(i).area() for i in range(2)])
     ts = [threading.Thread(target=worker, args=(out, k)) for k in range(4)]
     for t in ts:
         t.start()
@@ -319,6 +342,12 @@ def differential(ctx, n):
             if t is not None:
                 trigs.append(t)
             tdesc.append(dict(line=line, args=args, watches=watches, metrics=len(metrics)))
+        if rng.random() < 0.6:
+            # plain snapshot tracepoints (no watches / log / condition) inside the methods that use cells
+            hot = [i + 1 for i, t in enumerate(lines) if "extra" in t or "count += k" in t or "return count" in t or "self.s = s" in t]
+            for hl in rng.sample(hot, rng.choice([1, 2])):
+                trigs.append(build_trigger("tph%d" % hl, base, hl, {"fire_count": rng.choice(["-1", "1"]), "fire_period": "0"}, [], []))
+                tdesc.append(dict(line=hl, args="plain snapshot", watches=[], metrics=0))
         world.install(trigs)
         ref, ref_out = run_host(None)
         raised_in_handler = []
